@@ -8,7 +8,7 @@ def run(ctx):
     ctx.clause = ("no change_kind-taking suppression predicate can answer true without having tested the kind of "
                   "change, and each application loop passes the kind and stores into the set that belong to the "
                   "container it iterates")
-    ctx.rules = ["R-CHGKIND/a", "R-CHGKIND/b", "R-BINGATE"]
+    ctx.rules = ["R-CHGKIND/a", "R-CHGKIND/b", "R-APPLYALL", "R-BINGATE"]
     P = ctx.program(UNITS)
     sa.check_chgkind_a(ctx, P)
     sa.check_chgkind_b(ctx, P)
